@@ -22,6 +22,11 @@ Definition ij_nf (rd rs1 : arg) (imm op f3 : Z) : res Z :=
   if negb (imm mod 2 =? 0) then Err ValueError else
   Ok (op + rd * 2^7 + f3 * 2^12 + rs1 * 2^15 + bits imm 0 12 * 2^20).
 
+Definition ic_nf (rd rs1 : arg) (imm op f3 : Z) : res Z :=
+  rd <- reg rd ;; rs1 <- reg rs1 ;;
+  if (imm <? 0) || (imm >? 4095) then Err ValueError else
+  Ok (op + rd * 2^7 + f3 * 2^12 + rs1 * 2^15 + imm * 2^20).
+
 Definition s_nf (rs1 rs2 : arg) (imm op f3 : Z) : res Z :=
   rs1 <- reg rs1 ;; rs2 <- reg rs2 ;;
   if (imm <? -2048) || (imm >? 2047) then Err ValueError else
@@ -106,6 +111,14 @@ Proof.
   intros Hop Hf3. unfold ij_type, ij_nf, reg.
   dreg rd. dreg rs1. dguard. dguard.
   f_equal. finish_code.
+Qed.
+
+Lemma ic_type_nf rd rs1 imm op f3 : 0 <= op < 128 -> 0 <= f3 < 8 ->
+  ic_type rd rs1 imm op f3 = ic_nf rd rs1 imm op f3.
+Proof.
+  intros Hop Hf3. unfold ic_type, ic_nf, reg.
+  dreg rd. dreg rs1. dguard.
+  f_equal. cbv zeta. lor_to_add. reflexivity.
 Qed.
 
 Lemma s_type_nf rs1 rs2 imm op f3 : 0 <= op < 128 -> 0 <= f3 < 8 ->
